@@ -171,8 +171,20 @@ def case_solve(ctx, rng):
     if fa != 1.0:
         for s in list(a.blocks):
             a.blocks[s] = a.blocks[s] * fa
+    illcond = False
+    if fa == 1.0 and rng.random() < 0.08:
+        # one block with singular values (1, ..., 1e-10 .. 1e-11): invertible, condition 1e10-1e11
+        s_ = rng.choice(list(a.blocks))
+        bb = np.asarray(a.blocks[s_])
+        if bb.shape[0] >= 2:
+            u_, _, vh_ = np.linalg.svd(bb)
+            sv = np.ones(bb.shape[0])
+            sv[-1] = rng.choice([1e-10, 3e-11, 1e-11])
+            a.blocks[s_] = ((u_ * sv) @ vh_).astype(bb.dtype)
+            illcond = True
+            feats.add("block-of-condition-1e10")
     da = embed(a)
-    if da.shape[0] != da.shape[1] or np.linalg.cond(da) > 1e6:
+    if da.shape[0] != da.shape[1] or (np.linalg.cond(da) > 1e6 and not illcond):
         ctx.count("solve", "dense-not-invertible-skipped")
         return
     kind = "static" if type(a).static_symmetry else "generic_str"
@@ -206,7 +218,16 @@ def case_solve(ctx, rng):
     except Exception as e:
         ctx.violation("solve-layout", str(e), wit)
         return
-    if not np.allclose(got, exp, atol=1e-9 * (float(np.abs(exp).max(initial=0)) or 1.0), rtol=0):
+    if illcond:
+        # the dense solution itself is only good to cond * eps here: judge the (backward stable)
+        # residual instead - a truncated or regularised solve leaves a residual of order one
+        db = embed(b)
+        res_ = float(np.abs(da @ got - db).max(initial=0))
+        scale_ = float(np.abs(da).max() * np.abs(got).max(initial=0) + np.abs(db).max(initial=0)) or 1.0
+        if not res_ <= 1e-7 * scale_:
+            ctx.violation("solve-value", f"ill-conditioned (1e10) but invertible system: residual |a x - b| = {res_} (scale {scale_}); numpy.linalg.solve leaves {float(np.abs(da @ exp - db).max(initial=0))}", wit)
+            return
+    elif not np.allclose(got, exp, atol=1e-9 * (float(np.abs(exp).max(initial=0)) or 1.0), rtol=0):
         ctx.violation("solve-value", f"solution differs from numpy.linalg.solve on the dense system, max|diff| {cmp.maxdiff(got, exp)}", wit)
         return
     # the solution is a valid array of total charge  charge(b) - charge(a)
